@@ -126,17 +126,43 @@ def rule_recursion(ctx: Ctx) -> None:
     P = ctx.prog
     el = P.func(f"{LZ}.evaluate_lazy")
     tested: dict[str, list[ast.AST]] = {}
+    inclusive: dict[str, list[ast.AST]] = {}  # kinds tested with isinstance (subclasses included)
+    d_el = Defs(el)
     for s_ in [s_ for s_ in ast.walk(el.node) if isinstance(s_, (ast.If, ast.IfExp))]:
         for c in [c for c in ast.walk(s_.test) if isinstance(c, ast.Call) and dotted(c.func) == "isinstance" and len(c.args) == 2]:
             for x in ast.walk(c.args[1]):
                 if isinstance(x, (ast.Name, ast.Attribute)):
                     tested.setdefault(norm(x).rsplit(".", 1)[-1], []).append(s_)
+                    inclusive.setdefault(norm(x).rsplit(".", 1)[-1], []).append(s_)
+        # exact-type tests: `type(x) is T`, `tp is T` with tp = type(x), `type(x) in (T1, T2)`, `type(x) == T`
+        exact_here: set[str] = set()
+        for c in [c for c in ast.walk(s_.test) if isinstance(c, ast.Compare) and len(c.ops) == 1 and isinstance(c.ops[0], (ast.Is, ast.Eq, ast.In, ast.IsNot, ast.NotEq, ast.NotIn))]:
+            sides = [d_el.resolve(c.left), d_el.resolve(c.comparators[0])]
+            if not any(isinstance(y, ast.Call) and dotted(y.func) == "type" for y in sides):
+                continue
+            for y in sides:
+                for x in ast.walk(y):
+                    if isinstance(x, (ast.Name, ast.Attribute)) and not (isinstance(y, ast.Call) and dotted(y.func) == "type"):
+                        tested.setdefault(norm(x).rsplit(".", 1)[-1], []).append(s_)
+                        exact_here.add(norm(x).rsplit(".", 1)[-1])
+        for k_ in exact_here:  # `isinstance(x, dict) and type(x) is dict` (a class pattern with a guard): exact after all
+            inclusive[k_] = [r_ for r_ in inclusive.get(k_, []) if r_ is not s_]
     # a dispatch table (`for tp, handler in _TABLE: if isinstance(x, tp): return handler(x)`) names the kinds outside the function
     table_names = {x.id for c in Scope(ctx, el, wide=True).const_nodes() for x in ast.walk(c) if isinstance(x, ast.Name)}
     for k in ("_LazyFunction", "dict", "tuple", "list", "set"):
         regions = tested.get(k, [])
         rec = any("evaluate_lazy(" in norm(r) or ".evaluate()" in norm(r) for r in regions)
         ctx.tri("4-recursion", el, regions[0] if regions else el.node, rec, not regions and k not in table_names, f"{k}: evaluated recursively", f"evaluate_lazy never tests for `{k}`: lazy values inside a {k} reach the user function unevaluated", f"{k}: branch found but no recursive call recognised", key=f"kind {k}")
+    # ... and a container that is REBUILT from its items is recognised by its exact type: `isinstance(x, tuple)` is also true for
+    # a NamedTuple result of an upstream function, `isinstance(x, dict)` for a Counter / OrderedDict - concrete user values, which
+    # the builtin constructor turns into a plain tuple / dict (the eager pipeline hands the object itself to the consumer)
+    for k in ("dict", "tuple", "list", "set"):
+        regions = inclusive.get(k, [])
+        rebuilt = [r for r in regions if "evaluate_lazy(" in norm(r)]
+        if k in tested:
+            ctx.add("4-recursion", el, rebuilt[0] if rebuilt else el.node, not rebuilt, f"{k}: only the plain builtin {k} is rebuilt" if not rebuilt else
+                    f"`isinstance(x, {k})` selects the branch that rebuilds the container with the builtin {k}: an instance of a subclass (NamedTuple, Counter, OrderedDict, ...) returned by an upstream function reaches the "
+                    f"consumer as a plain {k} - evaluate() raises AttributeError / returns something else than the eager pipeline", key=f"exact {k}")
     # the evaluated container is rebuilt with a constructor that is known to accept one iterable (the builtin, or a literal /
     # comprehension): `type(x)(generator)` also runs the constructors of subclasses (NamedTuple, ...), which take other arguments
     generic = [c for c in ast.walk(el.node) if isinstance(c, ast.Call) and isinstance(c.func, ast.Call) and dotted(c.func.func) == "type" and c.args and isinstance(c.args[0], (ast.GeneratorExp, ast.ListComp))] + \
@@ -268,6 +294,7 @@ def check(ctx: Ctx) -> None:
 
 L, B, PF = "pipefunc/lazy.py", "pipefunc/_pipeline/_base.py", "pipefunc/_pipefunc.py"
 MUTANTS = [
+    Mutant("containers-by-isinstance-F42", "pipefunc/lazy.py", "    if container_type is tuple:\n", "    if isinstance(x, tuple):\n", ("C18.4-recursion",), why="original F42"),
     Mutant("disk-cache-pickles-lazy-nodes", "pipefunc/_pipeline/_cache.py", "        cache_kwargs.setdefault(\"lru_shared\", not lazy)\n", "", ("C18.3-shared",), why="round-4 seed C18/11"),
     Mutant("evaluate-skips-resolution-for-pipefuncs", "pipefunc/lazy.py", "        args = evaluate_lazy(self.args)\n        kwargs = evaluate_lazy(self.kwargs)\n", "        if hasattr(self.func, \"output_name\"):\n            args, kwargs = self.args, self.kwargs\n        else:\n            args = evaluate_lazy(self.args)\n            kwargs = evaluate_lazy(self.kwargs)\n", ("C18.2-memo",), why="round-4 seed C18/10"),
     Mutant("lazy-arm-runs", B, "    if lazy:\n        return _LazyFunction(func, kwargs=func_args)\n", "    if lazy:\n        return _LazyFunction(lambda r=func(**func_args): r)\n", ("C18.1-deferred",)),
@@ -276,7 +303,7 @@ MUTANTS = [
     Mutant("no-early-return", L, "        if self._evaluated:\n            return self._result\n", "", ("C18.2-memo",)),
     Mutant("flag-never-set", L, "        self._result = result\n        self._evaluated = True\n", "        self._result = result\n", ("C18.2-memo",)),
     Mutant("kwargs-not-resolved", L, "        kwargs = evaluate_lazy(self.kwargs)\n", "        kwargs = self.kwargs\n", ("C18.2-memo",)),
-    Mutant("no-set-recursion", L, "    if isinstance(x, set):\n        return {evaluate_lazy(v) for v in x}\n", "", ("C18.4-recursion",)),
+    Mutant("no-set-recursion", L, "    if container_type is set:\n        return {evaluate_lazy(v) for v in x}\n", "", ("C18.4-recursion",)),
     Mutant("call-kwargs-only", PF, "                args = evaluate_lazy(args)\n                kwargs = evaluate_lazy(kwargs)\n", "                kwargs = evaluate_lazy(kwargs)\n", ("C18.4-recursion",)),
     Mutant("edges-kwargs-only", L, "            for arg in self.args:\n                add_edge(arg)\n\n", "", ("C18.5-dag",)),
     Mutant("edge-reversed", L, "                    _TASK_GRAPH.graph.add_edge(arg._id, self._id)\n", "                    _TASK_GRAPH.graph.add_edge(self._id, arg._id)\n", ("C18.5-dag",)),
